@@ -1,6 +1,7 @@
 """C11 — chmod/chown change exactly the selected entries.
 Decided: WHO-WRITES (mode / type bits), GUARDED-BY (never alter a symlink itself), META-CONSIST (is_exec / is_readonly / mode read the same
-metadata), ENTRY-DEFAULTS, SETTER (Chmod, Chown builders), traversal set-up of _chmod / _chown + SIBLING.
+metadata), ENTRY-DEFAULTS, SETTER (Chmod, Chown builders), traversal set-up of _chmod / _chown + SIBLING, CLAUSE-COMPLETE (no success exit inside the
+symbolic clause loop except for a link).
 Not decided: the symbolic-mode grammar's semantics, which entries a traversal selects."""
 import engine, linkrules, setters, atomic
 from callgraph import CallGraph
@@ -19,8 +20,44 @@ EXPLANATION = (
     "is_readonly always agree with mode()' — the Entry defaults compute from self.mode() with 0o111 / 0o222 only and each backend's three queries read the "
     "same metadata flavour (META-CONSIST, ENTRY-DEFAULTS); the Chmod / Chown builders assign exactly their documented fields (SETTER); _chmod / _chown "
     "configure the traversal identically on both backends with max_depth 0 / usize::MAX chosen by `recursive` and follow passed through (TRAVERSAL-SETUP, "
-    "SIBLING). NOT decided: the symbolic-mode grammar's semantics for all expressions (e.g. the multi-clause early return found by reading), and which "
-    "entries a traversal selects.")
+    "SIBLING); sys::mode leaves its clause loop with success only for a link, so no later clause of a comma-repeated expression is dropped "
+    "(CLAUSE-COMPLETE). NOT decided: the symbolic-mode grammar's semantics for all expressions beyond that, and which entries a traversal selects.")
+
+
+MODE_FN = 'sys::fs::chmod::mode'
+
+
+def clause_complete(rep, F, cg):
+    """CLAUSE-COMPLETE — the symbolic expression is a comma-repeatable list of clauses and the resulting mode is defined by ALL of them. Structural necessary
+    condition: inside the loop that consumes the expression (an exit reached under an iteration fact `pop(..)=Some` / `next(..)=Some`) sys::mode may return
+    success only for a symlink (no clause can apply to it); every other success exit lies behind the loop's exhaustion edge (`..=None`). A success return on
+    the target-mismatch edge drops every later clause: `f:a+r,d:a+x` applied to a directory leaves it unchanged."""
+    import re
+    import siteguard as _sg
+    rep.rule('CLAUSE-COMPLETE', 'sys::mode returns Ok from inside the clause loop (under an iteration fact pop(..)=Some / next(..)=Some) only under the definite fact '
+             'is_symlink(entry)=True; every other Ok exit is reached after the expression is exhausted (iteration fact ..=None or is_empty(remaining)=True) or before parsing starts')
+    if MODE_FN not in F.bodies:
+        rep.add('CLAUSE-COMPLETE', 'clausecomplete:anchor', '%s exists' % MODE_FN, False, detail='anchor missing')
+        return
+    B = cg.body(MODE_FN)
+    inst = _sg.collect(F, cg, [MODE_FN]).get(MODE_FN + '|return Ok', [])
+    it = re.compile(r'^(pop|next|next_back|_pop)\(.*\)=(Some|None)$')
+    inside = exhausted = 0
+    for facts in inst:
+        its = {m.group(2) for f in facts if '|' not in f for m in [it.match(f)] if m}
+        if 'None' in its or any(re.match(r'^is_empty\(.*\)=True$', f) for f in facts if '|' not in f and 'arg3' not in f):
+            exhausted += 1              # behind an exhaustion edge (the outer or an inner read of the expression returned nothing)
+            continue
+        if 'Some' not in its:
+            continue
+        inside += 1
+        ok = 'is_symlink(arg1)=True' in facts
+        about = sorted(f for f in facts if 'arg1' in f and 'phi(' not in f)
+        key = 'clausecomplete:mode:%s' % (','.join(about) or 'unconditional')
+        rep.add('CLAUSE-COMPLETE', key, 'a success return of sys::mode inside the clause loop is taken only for a symlink', ok, '%s:%d' % (B.file, B.line),
+                '' if ok else 'sys::mode returns Ok from inside the clause loop under %s: the clauses after a non-matching one are never applied '
+                '(e.g. "f:a+r,d:a+x" leaves a directory unchanged although its second clause targets it)' % (about or 'no entry condition'))
+    rep.floor('CLAUSE-COMPLETE', 'Ok exits of sys::mode behind the exhaustion edge of the clause loop', exhausted, 1)
 
 
 def run(rep, F, ctx):
@@ -153,6 +190,7 @@ def run(rep, F, ctx):
     setters.setter(rep, F, cg, {k: v for k, v in tb.items() if k.startswith('<sys::fs::chmod::Chmod>') or k.startswith('<sys::fs::chown::Chown>')})
 
     setters.traversal_setup(rep, F, cg)
+    clause_complete(rep, F, cg)
     import siteguard as _sg
     _t = engine.load_table('site_guards.json')
     _sg.site_guard(rep, F, cg, _t, _t['_groups']['C11'])
